@@ -60,6 +60,7 @@ FIELD_INFO = {
     "hsum":  {"att": "hsum", "name": "hsum", "keys": ["hsum"], "type": "int"},
     "num":   {"att": "num", "name": "num", "keys": ["num"], "type": "anynum"},
     "nkind": {"att": "nkind", "name": "nkind", "keys": ["nkind"], "type": "str"},
+    "tt":    {"att": "tt", "name": "tt", "keys": ["tt"], "type": "int"},
 }
 ORDER = ["req", "opt", "its", "pos", "fin", "ali", "hid", "lf", "mreq", "exo", "total", "w", "num"]
 
@@ -86,7 +87,7 @@ def source(plan):
         L += [f"class M({base}):", f"    __options__ = Options({', '.join(okw)})"]
         tail = []
     if "req" in fs:
-        L.append("    req: int")
+        L.append("    req: int = 0" if plan.get("noreq") else "    req: int")
     if "opt" in fs:
         L.append("    opt: str = 'd'")
     if "its" in fs:
@@ -108,6 +109,9 @@ def source(plan):
     if "total" in fs:
         L += ["    @property", "    @Field(dependencies=['req', 'pos'])", "    def total(self) -> int:",
               "        return self.req * 10 + self.pos"]
+    if "total" in fs and plan.get("tt"):
+        # a property that depends on a property: a change of req / pos has to reach it through total
+        L += ["    @property", "    @Field(dependencies=['total'])", "    def tt(self) -> int:", "        return self.total + 1000"]
     if "hid" in fs and plan["base"] == "schema" and plan.get("hsum"):
         # a property that depends on a field which is kept out of the key view
         L += ["    @property", "    @Field(dependencies=['hid'])", "    def hsum(self) -> int:",
@@ -189,6 +193,9 @@ def generate(rng, tier):
             "options": {}, "inherit": rng.random() < 0.3, "mode": None}
     plan["fin_final"] = rng.random() < 0.4
     plan["hsum"] = "hid" in fs and base == "schema" and rng.random() < 0.6
+    plan["tt"] = "total" in fs and rng.random() < 0.5
+    # no field without a default (and no immutable one): clear() and popitem() can go all the way
+    plan["noreq"] = "fin" not in fs and rng.random() < 0.35
     if "mreq" in fs:
         plan["mode"] = rng.choice([None, "class", "runtime"]) if base == "schema" else rng.choice([None, "class"])
     o = plan["options"]
@@ -334,7 +341,7 @@ def read_attr(inst, att):
     except AttributeError:
         return _MISSING
     except Exception:  # noqa  a property body computing over already-broken data; the broken field itself is reported
-        if att in ("total", "w", "w2", "hsum", "nkind"):
+        if att in ("total", "w", "w2", "hsum", "nkind", "tt"):
             return _MISSING
         raise
 
@@ -348,7 +355,7 @@ class View:
         self.extra = {}
         is_schema = plan["base"] == "schema"
         names = {}
-        all_kinds = list(plan["fields"]) + (["w2"] if "w" in plan["fields"] else []) + (["hsum"] if plan.get("hsum") else []) + (["nkind"] if "num" in plan["fields"] else [])
+        all_kinds = list(plan["fields"]) + (["w2"] if "w" in plan["fields"] else []) + (["hsum"] if plan.get("hsum") else []) + (["nkind"] if "num" in plan["fields"] else []) + (["tt"] if plan.get("tt") else [])
         for k in all_kinds:
             names[FIELD_INFO[k]["name"]] = k
         if is_schema:
@@ -378,7 +385,7 @@ def check_invariants(plan, inst, initial, res, opname, field, current=True):
     v = View(plan, inst)
     fs = plan["fields"]
     is_schema = plan["base"] == "schema"
-    props = {"total", "w", "w2", "hsum", "nkind"}
+    props = {"total", "w", "w2", "hsum", "nkind", "tt"}
     # I1 conformance of every present field, in both views
     for k, val in v.keys.items():
         if not conforms(k, val):
@@ -387,7 +394,7 @@ def check_invariants(plan, inst, initial, res, opname, field, current=True):
         if not conforms(k, val):
             out.append(("I1", k, f"attribute view holds non-conforming {k}={val!r}"))
     # I2 required present
-    for k in ("req", "fin") + (("mreq",) if plan.get("mode") else ()):
+    for k in (() if plan.get("noreq") else ("req",)) + ("fin",) + (("mreq",) if plan.get("mode") else ()):
         if k in fs:
             if k not in v.keys:
                 out.append(("I2", k, f"required field {k} is gone from the data"))
@@ -401,7 +408,7 @@ def check_invariants(plan, inst, initial, res, opname, field, current=True):
             out.append(("I3", "class", "instance of an immutable class changed"))
     # I4 key view and attribute view agree
     if is_schema:
-        for k in list(fs) + (["w2"] if "w" in fs else []) + (["hsum"] if plan.get("hsum") else []) + (["nkind"] if "num" in fs else []):
+        for k in list(fs) + (["w2"] if "w" in fs else []) + (["hsum"] if plan.get("hsum") else []) + (["nkind"] if "num" in fs else []) + (["tt"] if plan.get("tt") else []):
             if k == "hid":
                 if "hid" in v.keys:
                     out.append(("I4", k, "no_output field present in the key view"))
@@ -420,6 +427,10 @@ def check_invariants(plan, inst, initial, res, opname, field, current=True):
             want = v.keys["req"] * 10 + v.keys["pos"]
             if "total" in v.keys and v.keys["total"] != want:
                 out.append(("I5", "total", f"total={v.keys['total']!r} but req*10+pos={want!r}"))
+    if plan.get("tt") and is_schema and "req" in v.keys and "pos" in v.keys and conforms("req", v.keys["req"]) and conforms("pos", v.keys["pos"]):
+        want = v.keys["req"] * 10 + v.keys["pos"] + 1000
+        if "tt" in v.keys and v.keys["tt"] != want:
+            out.append(("I5", "tt", f"tt={v.keys['tt']!r} but req*10+pos+1000={want!r} (a property that depends on the property total)"))
     if "total" in fs and not is_schema:
         if "req" in v.keys and "pos" in v.keys and conforms("req", v.keys["req"]) and conforms("pos", v.keys["pos"]):
             want = v.keys["req"] * 10 + v.keys["pos"]
